@@ -1586,7 +1586,21 @@ impl Stdfs {
     /// assert_vfs_remove_all!(vfs, &tmpdir);
     /// ```
     pub fn write<T: AsRef<Path>>(path: T) -> RvResult<Box<dyn Write>> {
-        Ok(Box::new(File::create(Stdfs::abs(path)?)?))
+        let path = Stdfs::abs(path)?;
+        let dir = path.dir()?;
+
+        // Validate the parent directory and the file the same way `write_all` does
+        if Stdfs::exists(&dir) {
+            if !Stdfs::is_dir(&dir) {
+                return Err(PathError::is_not_dir(&dir).into());
+            }
+        } else {
+            return Err(PathError::does_not_exist(&dir).into());
+        }
+        if fs::symlink_metadata(&path).is_ok() && !Stdfs::is_file(&path) {
+            return Err(PathError::is_not_file(&path).into());
+        }
+        Ok(Box::new(File::create(path)?))
     }
 
     /// Write the given data to to the target file
